@@ -16,8 +16,8 @@ Ltac Zify.zify_post_hook ::= Z.div_mod_to_equations.
 #[global] Arguments N.sub : simpl never.
 #[global] Arguments N.pow : simpl never.
 
-Definition byte := N.
-Definition bytes := list byte.
+Notation byte := N (only parsing).
+Notation bytes := (list N) (only parsing).
 Definition bytes_ok (l : bytes) : Prop := Forall (fun b => b < 256) l.
 Definition bytes_okb (l : bytes) : bool := forallb (fun b => b <? 256) l.
 Definition len {A} (l : list A) : N := N.of_nat (List.length l).
@@ -139,3 +139,30 @@ Proof.
     + specialize (H 0%nat). simpl in H. congruence.
     + apply IH. intros n. apply (H (S n)).
 Qed.
+
+Lemma takeN_len {A} (l : list A) : takeN (len l) l = l.
+Proof. unfold takeN, len. rewrite Nat2N.id. apply firstn_all. Qed.
+Lemma takeN_len_app {A} (a b : list A) : takeN (len a) (a ++ b) = a.
+Proof. unfold takeN, len. rewrite Nat2N.id. apply firstn_app_exact. Qed.
+Lemma dropN_len_app {A} (a b : list A) : dropN (len a) (a ++ b) = b.
+Proof. unfold dropN, len. rewrite Nat2N.id. apply skipn_app_exact. Qed.
+
+(* ---- compact transport of large byte strings between the harness and the model ----
+   pattern bytes (inputs) and a two-multiplier polynomial digest (mod 2^48) (observations); used only by the
+   correspondence evaluation, never in theorems. *)
+Definition pat_byte (seed i : N) : N := (seed + 31 * i + i / 256) mod 256.
+Fixpoint pat_from (n : nat) (seed i : N) : bytes :=
+  match n with O => [] | S k => pat_byte seed i :: pat_from k seed (i + 1) end.
+Definition pattern (n seed : N) : bytes := pat_from (N.to_nat n) seed 0.
+
+Definition DIGM : N := 281474976710655.   (* 2^48 - 1, used as a mask *)
+Definition digest (l : bytes) : N :=
+  let h1 := fold_left (fun h b => N.land (h * 257 + b + 1) DIGM) l 0 in
+  let h2 := fold_left (fun h b => N.land (h * 263 + b + 1) DIGM) l 0 in
+  h1 * 281474976710656 + h2.
+(* an observation is either the bytes themselves or [256; length; digest] (256 is not a byte) *)
+Definition bytes_match (m o : bytes) : bool :=
+  match o with
+  | [256; l; h] => (len m =? l) && (digest m =? h)
+  | _ => bytes_eqb m o
+  end.
